@@ -175,6 +175,7 @@ type Frame struct {
 	defers []deferred
 	retTo  ssa.Value // value in caller frame to receive the result; nil = discard
 	loops  map[int]int
+	symFlag bool
 	// frame was started to run a deferred call; on return the parent re-executes
 	// its RunDefers / continues unwinding
 	isDeferCall bool
